@@ -61,6 +61,8 @@ def handleC13 (kind : String) (fs : List (String × String)) : String :=
   | "mut" => handleOracle fs s!"mut-{getD fs "msg" "?"}-{getD fs "enc" "?"}"
   | "str" => handleOracle fs s!"str-{getD fs "kind" "?"}-{getD fs "enc" "?"}"
   | "caps" => handleCaps fs
+  | "fld" => handleOracle fs "fields"
+  | "stall" => handleOracle fs s!"stall-{getD fs "enc" "?"}"
   | _ => "PARSE kind"
 
 
@@ -74,7 +76,7 @@ def handleC14Mut (fs : List (String × String)) : String := Id.run do
   let base := getD fs "base" "000"
   let n := (getNat fs "n").getD 0
   let acts := splitNE (getD fs "acted" "-") "," |>.filter (· != "-")
-  let genuine := src == "genuine1" || src == "genuine2" || src == "skipown"
+  let genuine := src == "genuine1" || src == "genuine2" || src == "skipown" || src == "keptlast"
   let mut agree := true
   let mut bad : Option String := none
   let mut notes : List String := []
